@@ -6,7 +6,7 @@ REPO = os.environ.get("VERIF_REPO", "/repo")
 os.environ["VERIF_EVIDENCE_DIR"] = os.path.join(V, "build", "evidence-seeded")
 props = [json.loads(l)["id"] for l in open(os.path.join(V, "properties.jsonl"))]
 for d in sys.argv[1:]:
-    for diff in sorted(glob.glob(os.path.join(d, "h*.diff"))):
+    for diff in sorted(glob.glob(os.path.join(os.path.abspath(d), "h*.diff"))):
         if subprocess.run(["git", "-C", REPO, "apply", diff]).returncode != 0:
             print(diff, "DOES NOT APPLY", flush=True); continue
         alarms = []
